@@ -167,6 +167,25 @@ func (im *Image) Samples() []int {
 				}
 			}
 		}
+	case "lpgain":
+		// The two extremes on the separable period-4 sign pattern (+,+,-,+): the input that
+		// drives the 5/3 (and 9/7) low-pass filter to its largest output, about 1.5 x the range
+		// per dimension; with several components neighbouring components are inverted, which
+		// also maximises the colour-difference channels. Phase from Seed.
+		px, py := int(im.Seed%4), int((im.Seed>>2)%4)
+		sign := func(i int) bool { return i&3 != 2 }
+		for y := 0; y < im.H; y++ {
+			for x := 0; x < im.W; x++ {
+				pos := sign(x+px) == sign(y+py)
+				for c := 0; c < im.C; c++ {
+					v := lo
+					if pos != (c&1 == 1) {
+						v = hi
+					}
+					out[(y*im.W+x)*im.C+c] = v
+				}
+			}
+		}
 	case "checker":
 		a, b := lo, hi
 		if im.Par > 0 {
